@@ -123,6 +123,8 @@ def read_data(fh, mcnp_version, block_type=None, recursion=False):
     block_counter = 0
     if block_type is None:
         block_type = BlockType.CELL
+    # blocks are counted from the block this file starts in (the block of the read input for a sub-file)
+    first_block = block_type.value
     continue_input = False
     has_non_comments = False
     input_raw_lines = []
@@ -132,8 +134,8 @@ def read_data(fh, mcnp_version, block_type=None, recursion=False):
         if len(input_raw_lines) > 0:
             yield from flush_input()
         block_counter += 1
-        if block_counter < 3:
-            block_type = BlockType(block_counter)
+        if first_block + block_counter < 3:
+            block_type = BlockType(first_block + block_counter)
 
     def flush_input():
         nonlocal input_raw_lines
